@@ -31,8 +31,8 @@ type cdCand struct {
 }
 
 var (
-	cdReal = strings.NewReplacer("<eacute>", "é", "<euro>", "€", "<ff>", "\xff")
-	cdSym  = strings.NewReplacer("é", "<eacute>", "€", "<euro>", "\xff", "<ff>")
+	cdReal = strings.NewReplacer("<eacute>", "é", "<euro>", "€", "<ff>", "\xff", "<nbsp>", "\u00a0", "<ht>", "\t", "<nel>", "\u0085")
+	cdSym  = strings.NewReplacer("é", "<eacute>", "€", "<euro>", "\xff", "<ff>", "\u00a0", "<nbsp>", "\t", "<ht>", "\u0085", "<nel>")
 )
 
 // cdBuild constructs the candidate through the public constructors and AddExtension.
